@@ -445,6 +445,10 @@ impl Check for C15 {
 pub enum C17Case {
     Lib { file: WigCase },
     Tool(crate::clifam::AvgTool),
+    /// single stored values longer than 2^24 bases (lengths single precision cannot hold) on a
+    /// chromosome of the maximum length, one value reaching the very last base; regions ending at
+    /// u32::MAX
+    LongRuns { two_pass: bool },
     /// `average_over_bed` of the Python binding: every names mode x every stats form
     Py { file: usize, regions: usize },
     /// regions of 1 / 2 / 4 million bases (and small ones) on a file with several zoom levels whose
@@ -578,6 +582,7 @@ impl Check for C17 {
         let pys = (0..2usize).flat_map(|file| (0..4usize).map(move |regions| C17Case::Py { file, regions }));
         let tools = tools.chain(pys);
         let large = [(false, true), (true, false)].into_iter().map(|(two_pass, compress)| C17Case::LargeRegions { two_pass, compress });
+        let large = large.chain([false, true].into_iter().map(|two_pass| C17Case::LongRuns { two_pass }));
         Box::new(singles.chain(multi).chain(tools).chain(large))
     }
     fn run(&self, case: &C17Case, out: &mut Outcome) {
@@ -591,6 +596,58 @@ impl Check for C17 {
             C17Case::Tool(t) => {
                 out.nontrivial = true;
                 crate::clifam::c17_tool(t, out);
+                return;
+            }
+            C17Case::LongRuns { two_pass } => {
+                out.nontrivial = true;
+                let mut o = Opts::base();
+                o.two_pass = *two_pass;
+                o.zoom = Zoom::Manual(vec![1 << 22]);
+                let runs = WChrom {
+                    name: "runs".into(),
+                    len: u32::MAX,
+                    items: vec![
+                        WItem { s: 1000, e: 1000 + (1 << 24) + 1, vb: 1.5f32.to_bits() },
+                        WItem { s: 40_000_000, e: 40_000_000 + (1 << 25) + 3, vb: 0.75f32.to_bits() },
+                        WItem { s: 200_000_000, e: 200_000_000 + (1 << 26) + (1 << 10) + 1, vb: (-2.25f32).to_bits() },
+                        WItem { s: 4_294_967_290, e: u32::MAX, vb: 2.0f32.to_bits() },
+                    ],
+                };
+                let c = WigCase { chroms: vec![runs.clone()], extra_sizes: vec![], allow_ooo: false, opts: o };
+                let tags = wig_tags(&c);
+                let Some(bytes) = do_write_wig(&c, out) else { return };
+                let r = guarded(|| {
+                    let mut rd = BigWigRead::open(Cursor::new(bytes.clone())).unwrap();
+                    for (s, e) in [(1000u32, 16_778_217u32), (0, 20_000_000), (999, 16_778_218), (40_000_000, 73_554_435), (39_999_999, 80_000_000), (200_000_000, 267_109_889), (0, u32::MAX), (4_294_967_000, u32::MAX), (4_294_967_294, u32::MAX), (4_294_967_000, 4_294_967_294)] {
+                        out.count("regions", 1);
+                        out.count("regions_over_runs_longer_than_2_24", 1);
+                        let mut w = RefStats { size: e - s, bases: 0, sum: 0.0, abs_sum: 0.0, min: vec![], max: vec![] };
+                        let (mut mn, mut mx) = (f64::INFINITY, f64::NEG_INFINITY);
+                        for it in &runs.items {
+                            let (a, b) = (it.s.max(s), it.e.min(e));
+                            if b > a {
+                                let v = it.v() as f64;
+                                w.bases += b - a;
+                                w.sum += (b - a) as f64 * v;
+                                w.abs_sum += (b - a) as f64 * v.abs();
+                                mn = mn.min(v);
+                                mx = mx.max(v);
+                            }
+                        }
+                        if w.bases > 0 {
+                            w.min.push(mn);
+                            w.max.push(mx);
+                        }
+                        let entry = BedEntry { start: s, end: e, rest: format!("run_{}_{}", s, e) };
+                        match stats_for_bed_item("runs", entry, &mut rd) {
+                            Err(err) => out.fail("region_stats_error", &tags, format!("runs [{},{}): {}", s, e, err)),
+                            Ok(g) => cmp_entry(&format!("stats_for_bed_item runs [{},{})", s, e), &g, &w, &tags, out),
+                        }
+                    }
+                });
+                if let Err(p) = r {
+                    out.fail("read_panicked", &tags, p);
+                }
                 return;
             }
             C17Case::LargeRegions { two_pass, compress } => {
